@@ -372,7 +372,14 @@ def notes_arrays(ns):
 
 
 def build(task, case):
-    """-> (positional args of <task>.evaluate, kwargs)"""
+    """-> (positional args of <task>.evaluate, kwargs); a case carrying "time_scale" gets every time stamp multiplied by it"""
+    args, kw = _build(task, case)
+    if case.get("time_scale"):
+        args, kw = scale_times(task, args, kw, case["time_scale"])
+    return args, kw
+
+
+def _build(task, case):
     r, e = case["ref"], case["est"]
     kw = {k: (np.asarray(v, dtype=float) if isinstance(v, list) else v) for k, v in case["kw"].items()}
     if task in ("beat", "onset", "alignment"):
@@ -402,6 +409,22 @@ def build(task, case):
     raise KeyError(task)
 
 
+TIME_ARGS = {"beat": (0, 1), "onset": (0, 1), "alignment": (0, 1), "segment": (0, 2), "chord": (0, 2), "hierarchy": (0, 2), "melody": (0, 2),
+             "multipitch": (0, 2), "transcription": (0, 2), "transcription_velocity": (0, 3)}
+
+
+def scale_times(task, args, kw, f):
+    """The same input with every time stamp multiplied by f (> 0): validity is preserved (order, positivity, equal spans), but the
+    values leave the dyadic lattice, i.e. they are no longer fixed points of rounding.  For checks that need no exact oracle."""
+    args = list(args)
+    for i in TIME_ARGS.get(task, ()):
+        args[i] = [np.asarray(x, dtype=float) * f for x in args[i]] if isinstance(args[i], list) else np.asarray(args[i], dtype=float) * f
+    kw = dict(kw)
+    if task == "alignment" and kw.get("duration") is not None:
+        kw["duration"] = kw["duration"] * f * (1 + 1e-12)
+    return args, kw
+
+
 STRATEGIES = {
     "beat": beat_case, "onset": onset_case, "segment": segment_case, "chord": chord_case, "hierarchy": hierarchy_case,
     "melody": melody_case, "multipitch": multipitch_case, "transcription": transcription_case,
@@ -409,6 +432,21 @@ STRATEGIES = {
     "pattern": pattern_case, "alignment": alignment_case,
 }
 TASKS = list(STRATEGIES)
+OFF_LATTICE = 1.0003333333333333
+
+
+def _with_time_scale(strat):
+    """One case in four leaves the exact lattice (all time stamps times 1 + 1/3000): the checks built on the registry (C01, C02, C03, C14,
+    C15) compare mir_eval with itself or with a range and need no exact arithmetic, and lattice values are fixed points of rounding."""
+    @st.composite
+    def s(draw):
+        c = draw(strat())
+        c["time_scale"] = draw(st.sampled_from([None, None, None, OFF_LATTICE]))
+        return c
+    return s
+
+
+STRATEGIES = {k: (_with_time_scale(v) if k in TIME_ARGS else v) for k, v in STRATEGIES.items()}
 
 
 def module(task):
